@@ -22,9 +22,10 @@ META = {
         "a partition of request shapes, accepts exactly: version marker present, non-empty string method, params "
         "absent or list/dict/tuple; C05.8 (shared with C06.1 / C06.2 / C06.4) the client surfaces every error reply as a ProtocolError "
         "carrying the code: check_for_errors raises ProtocolError((code, message)) for an error object, every consumer of a reply "
-        "checks it first, and _run_request returns None only for an empty reply body (an error answered to a notification is parsed too).; C05.9 (shared) the error envelope carries the error object in both protocol versions (imported C14.1), and a request with an id - 0 and 0.0 included - is not treated as a notification, so its failure is answered (imported C04.3)"),
+        "checks it first, and _run_request returns None only for an empty reply body (an error answered to a notification is parsed too).; C05.9 (shared) the error envelope carries the error object in both protocol versions (imported C14.1), and a request with an id - 0 and 0.0 included - is not treated as a notification, so its failure is answered (imported C04.3) C05.10 (imported from C13.2) the per-request copy of the configuration (made for 1.0 requests on a 2.0 server) carries every field of the server's Config: the error reply of such a request is built from that copy, so a field the copy drops falls back to its default for exactly those requests."),
     "does_not_decide": "which texts the JSON backend rejects; exact message texts.",
-    "rules": {"C05.9": "imported C14.1, C04.3", 
+    "rules": {"C05.10": "imported C13.2 (Config.copy carries every field)",
+              "C05.9": "imported C14.1, C04.3", 
         "C05.1": "site classification by handler / dominating branch; literal folding vs spec table A.1",
         "C05.2": "CFG reachability and dominance", "C05.3": "who-may-call on getattr with provenance of the receiver",
         "C05.4": "provenance terms of the message argument", "C05.5": "lexical enclosure of the call by the -32602 try",
@@ -487,3 +488,8 @@ def check(ck):
     _common.import_rules(ck, _c14, {"C14.1": "C05.9"})
     _common.import_rules(ck, _c04, {"C04.3": "C05.9"})
     ck.floor("C05.9", 20)
+
+    # ---- C05.10 the per-request configuration copy is complete (shared with C13.2) --------------------------------------------
+    from rules import c13 as _c13c
+    _common.import_rules(ck, _c13c, {"C13.2": "C05.10"})
+    ck.floor("C05.10", 5)
